@@ -30,6 +30,8 @@ def run(ctx, chk):
     chk.rule("B4", "SET_LOG_BASE: build all bitmaps, then replace in every region")
     chk.rule("B5", "the log stays in force across later memory-table changes")
     run_on(fb, chk)
+    from . import xlist
+    xlist.apply("C15", fb, chk)
     n = lambda r: len([i for i in chk.instances if i[0] == r])
     chk.floor("B2", n("B2"), 6)
 
